@@ -89,7 +89,8 @@ def _table(wd, shard, ctx, res, only):
         H = fil.header
         freqs = [Fraction(fch1) + c * Fraction(foff) for c in range(C)]
         f32 = np.asarray(H.chan_freqs, dtype=np.float64)
-        refs = {"ch1": H.fch1, "max": float(H.fmax), "min": float(H.fmin), "center": H.fcenter, "num": 1234.5}
+        # reference frequencies from the band definition itself (float32 channel labels, as the library documents), not from the library's f* properties
+        refs = {"ch1": float(f32[0]), "max": float(f32.max()), "min": float(f32.min()), "center": fch1 - 0.5 * foff + 0.5 * foff * C, "num": 1234.5}
         for dm in (0.0, 0.5, -0.5, 7.0, -7.0, 56.78, -56.78, 300.0, -300.0, 1000.0, -1000.0):
             for rname, rval in refs.items():
                 if only is not None and [tsamp, dm, rname] != only:
